@@ -25,7 +25,7 @@ static long halfobj;
 static size_t mkkey(unsigned char *b, int id) {
     switch (profile) {
     case 0: return (size_t) sprintf((char *) b, "k%06d", id) + 1;
-    case 1: { int h = id / 2 + 0x7f;        /* the smallest keys straddle the 0x7f/0x80 byte boundary: the ordering is over unsigned bytes */
+    case 1: { int h = id / 2 + 0x7fff;      /* the smallest keys straddle 0x7f/0x80 in their FIRST byte (and 0xff/0x00 in the second): unsigned byte order */
               b[0] = (unsigned char) (h >> 8); b[1] = (unsigned char) h; if (id & 1) { b[2] = 0; return 3; } return 2; }
     case 2: { int32_t x = id * 7 - 50; memcpy(b, &x, 4); return 4; }
     case 3: return (size_t) sprintf((char *) b, "r%06d", KMAX - id) + 1;
@@ -38,7 +38,7 @@ static int keyid(const void *p, size_t n) {
     int id = -1;
     switch (profile) {
     case 0: if (n == 8 && b[0] == 'k' && b[7] == 0) id = atoi((const char *) b + 1); break;
-    case 1: if ((n == 2 || n == 3) && ((b[0] << 8) | b[1]) >= 0x7f) id = (((b[0] << 8) | b[1]) - 0x7f) * 2 + (n == 3); break;
+    case 1: if ((n == 2 || n == 3) && ((b[0] << 8) | b[1]) >= 0x7fff) id = (((b[0] << 8) | b[1]) - 0x7fff) * 2 + (n == 3); break;
     case 2: if (n == 4) { int32_t x; memcpy(&x, b, 4); if ((x + 50) % 7 == 0) id = (x + 50) / 7; } break;
     case 3: if (n == 8 && b[0] == 'r' && b[7] == 0) id = KMAX - atoi((const char *) b + 1); break;
     default: if ((n == 11 || n == 13) && (b[0] == 'k' || b[0] == 'K') && b[n - 1] == 0) id = atoi((const char *) b + 3); break;
@@ -227,7 +227,11 @@ int main(int argc, char **argv) {
                         cmps = c1;                  /* the size lookup is the harness's, not part of the call under test */
                         sz = chk ? cur_sz : 0; p = sp;
                     } else { p = sp; sz = sp ? strlen(sp) + 1 : 0; }
-                } else if STRKEYS p = T->get(T, (char *) kb, &sz, newmem);
+                } else if STRKEYS {
+                    p = T->get(T, (char *) kb, &sz, newmem);
+                    /* putting back the very buffer the table handed out (no copy) must leave the value as it is */
+                    if (p && !newmem && !inject && (vh_step % 3) == 0) { long c1 = cmps; if (!T->put(T, (char *) kb, p, sz)) ok = 0; p = T->get(T, (char *) kb, &sz, false); cmps = c1; }
+                }
                 else p = T->getobj(T, kb, kn, &sz, newmem);
                 ok = p != NULL;
                 if (p) { rv = valid_(p, sz); n = (long) sz; if (newmem) keep(p, rv, sz, 0); }
